@@ -140,7 +140,7 @@ def out_project(c, b, base):
     return project
 
 
-@harness(["C06", "C07"], "tcp_out.data_packets", functions=[OB + ".build_server_packet", OB + ".build_client_packet"],
+@harness(["C06", "C07", "C01"], "tcp_out.data_packets", functions=[OB + ".build_server_packet", OB + ".build_client_packet"],
          cases=[(d, v6) for d in ("server", "client") for v6 in (False, True)])
 def h_data(c, direction, ipv6):
     """one decrypted record of n bytes carried by k >= 1 input packets with timestamps ts[0..k): the call appends
@@ -258,7 +258,7 @@ h_data.must_cover = ["reached"]
 # ------------------------------------------------------------------------------------------------
 # build(): loop contract over a record list of symbolic length
 
-@harness(["C06", "C07", "C08", "C13"], "tcp_out.build", functions=[OB + ".build"], cases=[(False,), (True,)])
+@harness(["C06", "C07", "C08", "C13", "C01"], "tcp_out.build", functions=[OB + ".build"], cases=[(False,), (True,)])
 def h_build(c, ipv6):
     """for ANY list of exportable records (each with >= 1 carrying packet - established by the framing contract -
     and a plaintext): build() raises nothing; the synthetic handshake is emitted exactly when the first record of a
